@@ -34,6 +34,8 @@ holds in full and `complete_partial` needs no guard on *which* offered share the
 * `complete_preset` — the two combined: for the context `ApplyPreset` leaves, a compliant response
   selecting *any* generated share (or retrying with a listed classical group) is accepted.
 * `accepted_is_selected` — the accepted state reports what the server selected.
+* `retry_ignores_first_flight_keys` — after a HelloRetryRequest that selects a group, `clientStep` is independent
+  of every key the connection held before (whatever sequence of ApplyPreset / build / edit calls produced them).
 * `parrot_versions_accepted` (table) — for every predefined ClientHelloID the Config range `SetTLSVers`
   derives accepts every version the marshalled hello advertises, i.e. `clientReady`'s first conjunct holds
   for every version a compliant server can select.
@@ -165,6 +167,36 @@ theorem complete_preset (impl : Impl) (o : Offer) (base : ClientCtx) (r : Respon
   · have hne : (peerVersion r.hello1 != tls13) = true := by simpa using h13
     rw [hne, Bool.true_or]
 
+/-- the key material of a client context replaced by anything else. -/
+def withKeys (ctx : ClientCtx) (e : Nat) (h m me : Bool) (kg mg : List Nat) : ClientCtx :=
+  { ctx with ecdheGroup := e, hybridKeys := h, mlkem := m, mlkemEcdhe := me, keyGroups := kg, mlkemGroups := mg }
+
+/-- **After a group-selecting HelloRetryRequest the verdict does not depend on the keys of the first
+flight.** `processHelloRetryRequest` replaces the key set by the key it generates for the selected group;
+whatever the connection held before — keys of shares a second spec no longer sends, of shares removed from the
+built KeyShareExtension, per-group entries of an earlier application — has no influence on `clientStep`:
+for **every** sequence of calls that led to the first ClientHello, the retried handshake is decided by the
+offer, the Config range and the response alone. -/
+theorem retry_ignores_first_flight_keys (impl : Impl) (o : Offer) (ctx : ClientCtx) (r : Response)
+    (e : Nat) (h m me : Bool) (kg mg : List Nat)
+    (hH : isHRR impl r.hello1 = true) (hg : r.hello1.selectedGroup ≠ 0) :
+    clientStep impl o (withKeys ctx e h m me kg mg) r = clientStep impl o ctx r := by
+  have hgrp : (hrrGroup impl r != 0) = true := by
+    unfold hrrGroup; rw [if_pos hH]; simpa using hg
+  have hguards : guards impl o (withKeys ctx e h m me kg mg) r = guards impl o ctx r := by
+    unfold guards
+    congr 1
+    by_cases h13 : (peerVersion r.hello1 == tls13) = true
+    · rw [if_pos h13, if_pos h13]
+      unfold guards13 sh13Guards hrrGuards
+      simp only [hH, Bool.true_or, if_true, ecdheAfter, hybridAfter, hgrp]
+      rfl
+    · rw [if_neg h13, if_neg h13]
+      rfl
+  have hfinal : finalState impl o (withKeys ctx e h m me kg mg) r = finalState impl o ctx r := rfl
+  unfold clientStep
+  rw [hguards, hfinal]
+
 /-! ## the Config accepts what the hello advertises (regenerated table of the predefined ids) -/
 
 /-- versions the marshalled hello of a row advertises: the real TLS versions in its supported_versions,
@@ -230,6 +262,14 @@ def hrrP384 : ServerHello :=
 def respHRR : Response :=
   { hello1 := hrrP384, hello2 := some { shP256 with shareGroup := 24, shareLen := 97 }, recVersion := tls12 }
 example : compliantB implEx offerEx ctxEx respHRR = true ∧ clientReady implEx offerEx ctxEx respHRR = true := by decide
+
+/-- hypotheses of `retry_ignores_first_flight_keys` hold for that retry; a stale per-group key for P-384 left by
+an earlier spec changes nothing: accepted on the freshly generated P-384 key. -/
+example : isHRR implEx respHRR.hello1 = true ∧ respHRR.hello1.selectedGroup ≠ 0 ∧
+    (∃ st, clientStep implEx offerEx (withKeys ctxEx 29 false false false [29, 24] []) respHRR = .accept st ∧ st.group = 24) := by
+  refine ⟨by decide, by decide, finalState implEx offerEx ctxEx respHRR, ?_, by decide⟩
+  rw [retry_ignores_first_flight_keys _ _ _ _ _ _ _ _ _ _ (by decide) (by decide)]
+  decide
 
 /-- a TLS 1.2 answer (ECDHE on P-256, ALPN h2) is compliant and accepted as well. -/
 def resp12 : Response :=
